@@ -48,12 +48,87 @@ type invalidClass struct {
 	p    []float64
 }
 
-func sc(t ad.ScalarType, v float64) ad.Scalar { return ad.NewScalar(t, v) }
+// arena records the scalars, vectors and matrices that the harness hands to
+// constructors (all of them are made by sc / vec / mat), so that a monitor can
+// overwrite them afterwards: a distribution must not keep references to the
+// caller's arguments.
+type arena struct{ items []any }
+
+var rec *arena
+
+// recording runs f and returns the arguments created by sc / vec / mat meanwhile.
+func recording(f func()) *arena {
+	old := rec
+	a := &arena{}
+	rec = a
+	defer func() { rec = old }()
+	f()
+	return a
+}
+
+// overwrite sets every recorded argument to the value of its counterpart in
+// vals (the arguments of a construction of the same structure with other valid
+// parameters); arguments without counterpart of the same shape are moved to
+// 0.75 x + 0.125.
+func (a *arena) overwrite(vals *arena) {
+	other := func(x float64) float64 { return 0.75*x + 0.125 }
+	for i, it := range a.items {
+		var o any
+		if vals != nil && i < len(vals.items) {
+			o = vals.items[i]
+		}
+		switch x := it.(type) {
+		case ad.Scalar:
+			if y, ok := o.(ad.Scalar); ok && y.GetFloat64() != x.GetFloat64() {
+				x.SetFloat64(y.GetFloat64())
+			} else {
+				x.SetFloat64(other(x.GetFloat64()))
+			}
+		case ad.Vector:
+			y, ok := o.(ad.Vector)
+			for k := 0; k < x.Dim(); k++ {
+				if ok && y.Dim() == x.Dim() && y.At(k).GetFloat64() != x.At(k).GetFloat64() {
+					x.At(k).SetFloat64(y.At(k).GetFloat64())
+				} else {
+					x.At(k).SetFloat64(other(x.At(k).GetFloat64()))
+				}
+			}
+		case ad.Matrix:
+			y, ok := o.(ad.Matrix)
+			n, m := x.Dims()
+			same := false
+			if ok {
+				n2, m2 := y.Dims()
+				same = n == n2 && m == m2
+			}
+			for k := 0; k < n; k++ {
+				for l := 0; l < m; l++ {
+					if same {
+						x.At(k, l).SetFloat64(y.At(k, l).GetFloat64())
+					} else {
+						x.At(k, l).SetFloat64(other(x.At(k, l).GetFloat64()))
+					}
+				}
+			}
+		}
+	}
+}
+
+func sc(t ad.ScalarType, v float64) ad.Scalar {
+	r := ad.NewScalar(t, v)
+	if rec != nil {
+		rec.items = append(rec.items, r)
+	}
+	return r
+}
 
 func vec(t ad.ScalarType, v []float64) ad.Vector {
 	r := ad.NullDenseVector(t, len(v))
 	for i := range v {
 		r.At(i).SetFloat64(v[i])
+	}
+	if rec != nil {
+		rec.items = append(rec.items, r)
 	}
 	return r
 }
@@ -64,6 +139,9 @@ func mat(t ad.ScalarType, v []float64, n, m int) ad.Matrix {
 		for j := 0; j < m; j++ {
 			r.At(i, j).SetFloat64(v[i*m+j])
 		}
+	}
+	if rec != nil {
+		rec.items = append(rec.items, r)
 	}
 	return r
 }
